@@ -106,6 +106,80 @@ Theorem C14_info_ok_decidable i : info_ok_b i = true <-> info_ok i.
 Proof. exact (info_ok_b_spec i). Qed.
 Print Assumptions C14_info_ok_decidable.
 
+(* ---- the request-level wiring: which threshold entries decide the schedule ---------------------------------------- *)
+(* MetricsInfo.has_optimized_metric_thresholds: with thresholds stored per metric column and the optimised metrics in any
+   columns (in range), the flag is "some OPTIMISED metric column carries a threshold". *)
+Theorem C14_threshold_flag_spec thr opt : in_range thr opt ->
+  exists flag, has_optimized_metric_thresholds thr opt = Some flag /\
+    (flag = true <-> exists i t, In i opt /\ nth_error thr i = Some (Some t)).
+Proof. exact (has_thresholds_spec thr opt). Qed.
+Print Assumptions C14_threshold_flag_spec.
+
+(* Only the entries at the optimised columns are consulted: thresholds of constraint / stored metrics, and the order in
+   which the optimised columns are listed, do not matter. *)
+Theorem C14_threshold_flag_only_optimized_columns thr thr' opt opt' : in_range thr opt -> in_range thr' opt' ->
+  (forall i, In i opt <-> In i opt') ->
+  (forall i, In i opt -> (nth_error thr i = Some None <-> nth_error thr' i = Some None)) ->
+  has_optimized_metric_thresholds thr opt = has_optimized_metric_thresholds thr' opt'.
+Proof. exact (has_thresholds_only_optimized_columns thr thr' opt opt'). Qed.
+Print Assumptions C14_threshold_flag_only_optimized_columns.
+
+(* View.form_multimetric_info: the phase (and the multimetric_info) computed from a request is the phase selector applied
+   to the documented flag, the budget, the number of observations, the number of reported failures and the number of open
+   suggestions (0 when the request carries none). *)
+Theorem C14_request_phase_documented r : in_range (rq_thresholds r) (rq_optimized r) ->
+  exists flag, (flag = true <-> has_optimized_threshold (rq_thresholds r) (rq_optimized r)) /\
+    request_phase r =
+      Some (if rq_pareto r
+            then mm_phase flag (rq_budget r) (Z.of_nat (length (rq_failures r))) (Z.of_nat (count_true (rq_failures r)))
+                          (match rq_open r with Some k => Z.of_nat k | None => 0%Z end)
+            else (LNotMM, None)) /\
+    forall pick us halton,
+      request_info r pick us halton =
+      view_info (rq_pareto r) flag (rq_budget r) (Z.of_nat (length (rq_failures r))) (Z.of_nat (count_true (rq_failures r)))
+                (match rq_open r with Some k => Z.of_nat k | None => 0%Z end) pick us halton.
+Proof. exact (request_phase_documented r). Qed.
+Print Assumptions C14_request_phase_documented.
+
+Theorem C14_request_schedule_spec r pick us halton : in_range (rq_thresholds r) (rq_optimized r) ->
+  halton_ok halton = true -> draws_ok us ->
+  exists i, request_info r pick us halton = Some i /\ info_ok i.
+Proof. exact (request_schedule_spec r pick us halton). Qed.
+Print Assumptions C14_request_schedule_spec.
+
+(* The boundary pair that depends on the flag: past 10 % completed, with the served fraction in (55 %, 65 %], a request
+   polishes one metric exactly when no optimised column carries a threshold; otherwise it is in the epsilon phase. *)
+Theorem C14_request_polish_window r : in_range (rq_thresholds r) (rq_optimized r) -> rq_pareto r = true ->
+  let fs := fraction_served (rq_budget r) (rq_count r) (rq_failure_count r) (rq_open_count r) in
+  let fc := fraction_completed (rq_budget r) (rq_count r) (rq_failure_count r) (rq_open_count r) in
+  55#100 < fs <= 65#100 -> ~ fc <= 1#10 ->
+  exists l kw, request_phase r = Some (l, kw) /\
+    (has_optimized_threshold (rq_thresholds r) (rq_optimized r) -> (l = LEps0 \/ l = LEps1) /\ kw <> None) /\
+    (~ has_optimized_threshold (rq_thresholds r) (rq_optimized r) -> (l = LOpt0 \/ l = LOpt1) /\ kw = None).
+Proof. exact (request_polish_window r). Qed.
+Print Assumptions C14_request_polish_window.
+
+(* the decidable forms evaluated by the correspondence are the statements above *)
+Theorem C14_request_decidable thr opt :
+  (optimized_threshold_b thr opt = true <-> has_optimized_threshold thr opt) /\
+  (columns_in_range thr opt = true <-> in_range thr opt).
+Proof. exact (conj (optimized_threshold_b_spec thr opt) (columns_in_range_spec thr opt)). Qed.
+Print Assumptions C14_request_decidable.
+
+(* non-vacuity: metrics [constraint (threshold 0), optimised, optimised], budget 100, 60 observations, none failed, no open
+   suggestions: served fraction 0.6, no optimised threshold -> polish one metric; a threshold on column 2 -> epsilon phase;
+   the constraint metric's threshold in column 0 is not consulted *)
+Example C14_request_example :
+  let fails := repeat false 60 in
+  request_phase (mkRequest true 100 [Some 0; None; None] [1; 2]%nat fails (Some 0%nat)) = Some (LOpt0, None) /\
+  fst (mm_phase true 100 60 0 0) = LEps0 /\
+  match request_phase (mkRequest true 100 [Some 0; None; Some (1#2)] [1; 2]%nat fails None) with
+  | Some (LEps0, Some cf) => Qeq_bool cf (1#8) | _ => false end = true /\
+  has_optimized_metric_thresholds [None; Some 1; None] [0; 2]%nat = Some false /\
+  has_optimized_metric_thresholds [None; Some 1; None] [2; 1]%nat = Some true /\
+  has_optimized_metric_thresholds [None] [1]%nat = None.
+Proof. vm_compute. repeat split; reflexivity. Qed.
+
 (* ---- filters: equally long outputs -------------------------------------------------------------------------- *)
 Theorem C14_filter_gp_lengths info n pts vals vars fails lie : aligned n pts vals vars fails ->
   let o := filter_gp info pts vals vars fails lie in
